@@ -1646,7 +1646,8 @@ class ShortBinString(DynamicLength, ConstantOpcode):
     length_bytes = 1
 
     def encode_body(self) -> bytes:
-        return repr(self.arg).encode("utf-8")
+        # the raw bytes of a Python 2 str; pickletools reads them back as Latin-1
+        return self.arg.encode("latin-1")
 
     @classmethod
     def validate(cls, obj):
@@ -1662,7 +1663,8 @@ class BinString(DynamicLength, ConstantOpcode):
     signed = True
 
     def encode_body(self) -> bytes:
-        return repr(self.arg).encode("utf-8")
+        # the raw bytes of a Python 2 str; pickletools reads them back as Latin-1
+        return self.arg.encode("latin-1")
 
     @classmethod
     def validate(cls, obj):
